@@ -1168,7 +1168,11 @@ class DiGraphLiveness(DiGraph):
         """
         Compute the liveness information for the digraph.
         """
-        todo = set(self.leaves())
+        # Every block has to be computed at least once: starting from the
+        # graph leaves only misses the blocks which jump out of the graph
+        # (the leaf is then a location without block) and the blocks of loops
+        # without exit
+        todo = set(self.blocks)
         while todo:
             node = todo.pop()
             cur_block = self.blocks.get(node, None)
